@@ -12,8 +12,33 @@ import traceback
 VERIF = os.path.dirname(os.path.dirname(os.path.abspath(__file__)))
 
 
+_COV = set()
+
+
+def _start_coverage():
+    """Line coverage of the repository code executed by this configuration (sys.monitoring, near-zero overhead)."""
+    root = os.path.join(os.environ.get("QUCUMBER_REPO", "/repo"), "qucumber") + os.sep
+    mon = getattr(sys, "monitoring", None)
+    if mon is None:
+        return
+    try:
+        mon.use_tool_id(mon.COVERAGE_ID, "vf")
+    except ValueError:
+        return
+
+    def cb(code, line):
+        fn = code.co_filename
+        if fn.startswith(root):
+            _COV.add((fn[len(root):], code.co_qualname, line))
+        return mon.DISABLE
+    mon.register_callback(mon.COVERAGE_ID, mon.events.LINE, cb)
+    mon.set_events(mon.COVERAGE_ID, mon.events.LINE)
+
+
 def _worker(job):
     prop, tier, seed, cfg, canary = job
+    if canary is None:
+        _start_coverage()
     # fresh algebra state per configuration (atoms are process-local; workers are forked per task)
     from . import obl, alg, symtensor as st, solve
     L = importlib.import_module("lemmas." + prop)
@@ -43,7 +68,7 @@ def _worker(job):
             "prims": dict(st.PRIMS_USED), "generic": sorted(alg.GENERIC_POSITION)[:20],
             "side": solve.STATS["side_conditions"][:50], "z3s": solve.STATS["z3_seconds"],
             "z3q": solve.STATS["z3_queries"], "z3_confirmed": ctx.z3_confirmed, "bounded": ctx.bounded,
-            "wall": time.time() - t0, "error": err, "rewritten": getattr(ctx, "rewritten", [])}
+            "wall": time.time() - t0, "error": err, "rewritten": getattr(ctx, "rewritten", []), "cov": sorted(_COV)}
 
 
 def _child(job, conn):
@@ -67,7 +92,7 @@ def _failed(job, err, undecided=None):
                  "s": 0.0, "detail": undecided, "cfg": cfg}]
         err = None
     return {"cfg": cfg, "canary": canary, "obls": obls, "functions": [], "stubs": [], "assumed": [], "prims": {}, "generic": [],
-            "side": [], "z3s": 0.0, "z3q": 0, "z3_confirmed": 0, "bounded": [], "wall": 0.0, "error": err, "rewritten": []}
+            "side": [], "z3s": 0.0, "z3q": 0, "z3_confirmed": 0, "bounded": [], "wall": 0.0, "error": err, "rewritten": [], "cov": []}
 
 
 def _run_tasks(work, nproc, timeout):
